@@ -623,8 +623,73 @@ def reg_raises(ctx, st, exc):
     ctx.oblige("raises", "only-the-deserializer-rejects,and-only-values-not-yet-of-the-type", exc.origin == "deserializer" and not d["serialize"] and not d["is_value"])
 
 
+# ============================================================================ Type[...] / type
+# a value for Type[Base] is a class: given as a class it is kept; given as text it is the import path of a class that is (a subclass of) the
+# declared one; anything else - also a path that cannot be imported - is rejected with the arm's ValueError (an ImportError / AttributeError of
+# the import escaped every parse method before; fixed)
+TYPE_VALS = ["a-class-object", "path-of-a-subclass", "path-of-an-unrelated-class", "path-of-a-function", "module-missing", "attribute-missing", "not-a-dotted-path"]
+
+
+def type_setup(ctx):
+    bare = ctx.choose(2, "bare-Type") == 1
+    serialize = ctx.choose(2, "serialize") == 1
+    vk = TYPE_VALS[ctx.choose(len(TYPE_VALS), "value")]
+    ctx.classes.add("ModuleNotFoundError", ["ImportError"])
+    TYPE_, TYPE_BARE, BASE = Rec("typing.Type"), Rec("builtins.type"), Rec("class Base")
+    sub, other, fn = Rec("type", attrs={"name": "Sub"}), Rec("type", attrs={"name": "Other"}), Rec("function", attrs={"name": "fn"})
+    ctx.classes.add("type", [])
+    text = z3.String("import path")
+    val = sub if vk == "a-class-object" else text
+    typehint = TYPE_ if bare else Rec("Type[Base]")
+
+    def import_object(c, a, k):
+        c.event("import", a[0])
+        if vk == "module-missing":
+            raise PyRaise(ExcVal("ModuleNotFoundError", args=("No module named x",), origin="import_object"))
+        if vk == "attribute-missing":
+            raise PyRaise(ExcVal("AttributeError", args=("module has no attribute",), origin="import_object"))
+        if vk == "not-a-dotted-path":
+            raise PyRaise(ExcVal("ValueError", args=("Expected a dot import path string",), origin="import_object"))
+        return {"path-of-a-subclass": sub, "path-of-an-unrelated-class": other, "path-of-a-function": fn}[vk]
+
+    calls = {"import_object": import_object, "object_path_serializer": lambda c, a, k: (c.event("serialize", a[0]), "pkg.Sub")[1], UNEXPECTED: raise_unexpected,
+             "is_subclass": lambda c, a, k: a[0] is sub and a[1] is BASE}
+    consts = {"Type": TYPE_, "type": ClassRef("type")}
+    env = {"val": val, "typehint": typehint, "typehint_origin": TYPE_ if not bare else None, "subtypehints": (BASE,) if not bare else None, "serialize": serialize}
+    return Setup(env=env, calls=calls, consts=consts, data=dict(bare=bare, serialize=serialize, vk=vk, val=val, sub=sub, other=other, text=text))
+
+
+def type_ok(d):
+    if d["serialize"] or d["vk"] == "a-class-object":
+        return True
+    if d["vk"] == "path-of-a-subclass":
+        return True
+    return d["bare"] and d["vk"] == "path-of-an-unrelated-class"   # bare Type: any class
+
+
+def type_post(ctx, st, result):
+    d = st.data
+    out = d["env"].lookup("val")
+    tag = f"[{'Type' if d['bare'] else 'Type[Base]'}<-{d['vk']}{',serialize' if d['serialize'] else ''}]"
+    ctx.oblige("post", "accepted=>a-class-object,or-the-import-path-of-a-class-that-is(for Type[Base]: a subclass of)-the-declared-one" + tag, type_ok(d))
+    if d["serialize"]:
+        ctx.oblige("post", "serialised-as-its-import-path" + tag, out == "pkg.Sub")
+    elif d["vk"] == "a-class-object":
+        ctx.oblige("post", "fixpoint:a-class-object-is-kept(not imported again)" + tag, out is d["val"] and not [e for e in ctx.events if e[0] == "import"])
+    else:
+        ctx.oblige("post", "the-result-is-the-imported-class" + tag, out is (d["sub"] if d["vk"] == "path-of-a-subclass" else d["other"]))
+
+
+def type_raises(ctx, st, exc):
+    d = st.data
+    tag = f"[{'Type' if d['bare'] else 'Type[Base]'}<-{d['vk']}]"
+    ctx.oblige("raises", f"rejected=>ValueError-only(an import path that cannot be imported is a wrong value, not a crash)(got {exc.cls}@{exc.origin})" + tag, exc.cls == "ValueError" and not type_ok(d))
+
+
 def arms_units(prop):
     u = []
+    u.append(Unit(prop, TARGET.format("typehint in {Type, type} or typehint_origin in {Type, type}"), type_setup, type_post, type_raises, label="Type", expect_cover=("return", "raise:ValueError"),
+                  trusted=["import_object(path) returns the object or raises ImportError / AttributeError / ValueError (its own unit, C14)", "is_subclass as issubclass; object_path_serializer: the import path of the class"]))
     u.append(Unit(prop, TARGET.format("typehint in leaf_types"), leaf_setup, leaf_post, leaf_raises, label="leaf-types", expect_cover=("return", "raise:ValueError"),
                   trusted=["json_or_yaml_load(text) returns some int/float/bool/str/None/list or raises a loader exception (external loader)", "float(int) rounds to nearest"]))
     u.append(Unit(prop, TARGET.format("typehint_origin in tuple_set_origin_types"), ts_setup, ts_post, ts_raises, label="Tuple/Set", expect_cover=("return", "raise:ValueError"), max_paths=60000,
@@ -655,6 +720,15 @@ def dc_setup(ctx):
     val_kind = ["dict", "namespace", "nested-arg", "other", "spec-of-this-very-class", "spec-of-another-class"][ctx.choose(6, "val-kind")] if mode == "parse" else "namespace"
     sub_defaults_on = ctx.choose(2, "sub_defaults") == 1 if mode == "parse" else False
     list_item = ctx.choose(2, "list_item") == 1 if mode == "parse" and val_kind in ("dict", "namespace") else False
+    # the class parser reports what it refuses with ArgumentError (it is built with exit_on_error=False: unit of get_class_parser; unit of error)
+    refused = ctx.choose(2, "the-class-parser-refuses-the-value") == 1 if mode == "parse" and val_kind != "other" else False
+
+    def validated(c2, name, a2, k2):
+        c2.event(name, a2[0], dict(k2))
+        if refused:
+            raise PyRaise(ExcVal("ArgumentError", args=("Validation failed",), origin="class-parser"))
+        return parsed
+
     prev = {"none": None, "namespace": Rec("Namespace", attrs={"tag": "previous value"}), "dict": {"a": 5}}[prev_kind]
     given_kwargs = {"fail_untyped": True}
     snapshot = dict(given_kwargs)
@@ -664,8 +738,8 @@ def dc_setup(ctx):
     def get_class_parser(c, a, k):
         seen_kwargs.append(dict(k.get("sub_add_kwargs") or {}))
         return Rec("ArgumentParser", methods={
-            "parse_object": lambda c2, s2, a2, k2: (c2.event("parse_object", a2[0], dict(k2)), parsed)[1],
-            "parse_args": lambda c2, s2, a2, k2: (c2.event("parse_args", a2[0], dict(k2)), parsed)[1],
+            "parse_object": lambda c2, s2, a2, k2: validated(c2, "parse_object", a2, k2),
+            "parse_args": lambda c2, s2, a2, k2: validated(c2, "parse_args", a2, k2),
             "instantiate_classes": lambda c2, s2, a2, k2: {"a": 1},
             "dump": lambda c2, s2, a2, k2: (c2.event("nested-dump", a2[0], dict(k2)), dumped_text)[1]})
 
@@ -679,10 +753,11 @@ def dc_setup(ctx):
            "spec-of-another-class": Rec("Namespace", attrs={"tag": "spec", "spec": True}, methods={"get": lambda c, s_, a, k: {"class_path": "pkg.Other", "init_args": spec_init}.get(a[0])})}[val_kind]
     calls = {"ActionTypeHint.get_class_parser": get_class_parser, UNEXPECTED: raise_unexpected, "is_subclass_spec": lambda c, a, k: isinstance(a[0], Rec) and a[0].attrs.get("spec", False),
              "get_import_path": lambda c, a, k: "pkg.DC", "sub_defaults.get": lambda c, a, k: sub_defaults_on,
-             "load_value": lambda c, a, k: (c.event("load", a[0]), loaded)[1], "dump_kwargs.get": lambda c, a, k: dict(caller_dump_kwargs), "typehint": lambda c, a, k: Rec("dataclass instance", attrs=dict(k))}
-    consts = {"Namespace": ClassRef("Namespace"), "NestedArg": ClassRef("NestedArg")}
-    env = {"val": val, "typehint": Rec("DataclassType"), "prev_val": prev, "sub_add_kwargs": given_kwargs, "instantiate_classes": mode == "instantiate", "serialize": mode == "serialize", "list_item": list_item}
-    return Setup(env=env, calls=calls, consts=consts, data=dict(prev_kind=prev_kind, prev=prev, mode=mode, val_kind=val_kind, given=given_kwargs, snapshot=snapshot, seen=seen_kwargs, parsed=parsed, val=val, spec_init=spec_init, sub_defaults_on=sub_defaults_on, list_item=list_item, dumped_text=dumped_text, loaded=loaded, caller_dump_kwargs=caller_dump_kwargs))
+             "load_value": lambda c, a, k: (c.event("load", a[0]), loaded)[1], "dump_kwargs.get": lambda c, a, k: dict(caller_dump_kwargs), "typehint": lambda c, a, k: Rec("dataclass instance", attrs=dict(k)),
+             "indent_text": lambda c, a, k: a[0], "str": lambda c, a, k: "text of the failure"}
+    consts = {"Namespace": ClassRef("Namespace"), "NestedArg": ClassRef("NestedArg"), "ArgumentError": ClassRef("ArgumentError")}
+    env = {"val": val, "typehint": Rec("DataclassType", attrs={"__name__": "DC"}), "prev_val": prev, "sub_add_kwargs": given_kwargs, "instantiate_classes": mode == "instantiate", "serialize": mode == "serialize", "list_item": list_item}
+    return Setup(env=env, calls=calls, consts=consts, data=dict(prev_kind=prev_kind, prev=prev, mode=mode, val_kind=val_kind, given=given_kwargs, snapshot=snapshot, seen=seen_kwargs, parsed=parsed, val=val, spec_init=spec_init, refused=refused, sub_defaults_on=sub_defaults_on, list_item=list_item, dumped_text=dumped_text, loaded=loaded, caller_dump_kwargs=caller_dump_kwargs))
 
 
 def dc_post(ctx, st, result):
@@ -696,6 +771,7 @@ def dc_post(ctx, st, result):
         ctx.oblige("post", "without-a-previous-value-the-class-parser-gets-no-default" + tag, len(d["seen"]) == 1 and "default" not in d["seen"][0])
     if d["mode"] == "parse":
         out = d["env"].lookup("val")
+        ctx.oblige("post", "a-value-the-class-parser-refuses-is-not-accepted" + tag, not d["refused"])
         ctx.oblige("post", "accept-iff:only-mappings-and-dotted-sub-options;validated-by-the-parser-of-that-very-class" + tag, d["val_kind"] in ("dict", "namespace", "nested-arg", "spec-of-this-very-class", "spec-of-another-class") and out is d["parsed"])
         ev = [e for e in ctx.events if e[0] in ("parse_object", "parse_args")]
         ctx.oblige("post", "the-validating-entry-point-of-the-class-parser-is-used-exactly-once" + tag, len(ev) == 1)
@@ -717,7 +793,10 @@ def dc_post(ctx, st, result):
 def dc_raises(ctx, st, exc):
     d = st.data
     tag = f"[dataclass:{d['mode']}<-{d['val_kind']},prev:{d['prev_kind']}]"
-    ctx.oblige("raises", "rejected=>the-value-is-neither-a-mapping-nor-a-dotted-sub-option" + tag, exc.origin == UNEXPECTED and d["val_kind"] == "other")
+    # C02 / C03: the refusal of the nested parser is the refusal of this value: the ValueError every caller handles (Union tries the next member, List / Dict name the
+    # item, _check_type names the key and the parse methods report it through their own parser's channel) - never the nested parser's ArgumentError as it is
+    ctx.oblige("raises", "rejected=>the-value-is-neither-a-mapping-nor-a-dotted-sub-option,or-the-class-parser-refused-it;always-as-the-ValueError-of-an-unexpected-value" + tag + f"(got {exc.cls}@{exc.origin})",
+               exc.origin == UNEXPECTED and (d["val_kind"] == "other" or d["refused"]))
     ctx.oblige("frame", "the-action's-own-sub_add_kwargs-dict-is-not-modified" + tag, d["given"] == d["snapshot"])
 
 
